@@ -84,15 +84,35 @@ func genC17(t *rapid.T) c17Case {
 		c.Images = append(c.Images, c17Image{Name: fmt.Sprintf("disc%d.bin", i), Sector: s,
 			Sig: rapid.SampledFrom([]string{"cd001", "playstation", "cd001", "playstation", "none"}).Draw(t, l+"-sig"), Size: size})
 	}
-	cur := -1
+	cur := -1               // image the connection has open
+	curName := -1           // under which name it was opened
+	at := make([]int, nimg) // at[name index] = image currently stored under that name
+	for i := range at {
+		at[i] = i
+	}
 	n := rapid.IntRange(2, 24).Draw(t, "nreq")
 	for i := 0; i < n; i++ {
 		l := fmt.Sprintf("r%d", i)
-		k := rapid.IntRange(0, 11).Draw(t, l+"-k")
+		k := rapid.IntRange(0, 12).Draw(t, l+"-k")
 		switch {
+		case k == 12 && nimg > 1 && cur >= 0:
+			// the image is replaced under its name (the files exchange their names), then opened again under the same
+			// name - mostly without a CLOSEFILE in between
+			other := (curName + 1 + rapid.IntRange(0, nimg-2).Draw(t, l+"-other")) % nimg
+			c.Reqs = append(c.Reqs, hx.Req{Op: "LOCAL_SWAP", Path: hx.BStr("/" + c.Images[curName].Name), Raw: hx.BStr("/" + c.Images[other].Name)})
+			c.Which = append(c.Which, -1)
+			at[curName], at[other] = at[other], at[curName]
+			if rapid.IntRange(0, 3).Draw(t, l+"-closefirst") == 0 {
+				c.Reqs = append(c.Reqs, hx.Req{Op: "OPEN_FILE", Path: "/CLOSEFILE"})
+				c.Which = append(c.Which, -1)
+			}
+			cur = at[curName]
+			c.Reqs = append(c.Reqs, hx.Req{Op: "OPEN_FILE", Path: hx.BStr("/" + c.Images[curName].Name)})
+			c.Which = append(c.Which, cur)
 		case cur < 0 || k == 0:
-			cur = rapid.IntRange(0, nimg-1).Draw(t, l+"-img")
-			c.Reqs = append(c.Reqs, hx.Req{Op: "OPEN_FILE", Path: hx.BStr("/" + c.Images[cur].Name)})
+			curName = rapid.IntRange(0, nimg-1).Draw(t, l+"-img")
+			cur = at[curName]
+			c.Reqs = append(c.Reqs, hx.Req{Op: "OPEN_FILE", Path: hx.BStr("/" + c.Images[curName].Name)})
 			c.Which = append(c.Which, cur)
 		case k == 1:
 			c.Reqs = append(c.Reqs, hx.Req{Op: "OPEN_FILE", Path: "/CLOSEFILE"})
@@ -170,6 +190,12 @@ func runC17(c c17Case, st *hx.Stats) error {
 	}
 	if len(c.Images) > 1 {
 		st.Label("several images of different sector size on one connection")
+	}
+	for _, r := range c.Reqs {
+		if r.Op == "LOCAL_SWAP" {
+			st.Label("image replaced under its name and opened again")
+			break
+		}
 	}
 	st.Sample(map[string]any{"images": c.Images, "reqs": reqStrings(c.Reqs[:min(len(c.Reqs), 12)])})
 	sc := hx.SessionCase{Tree: c.tree(), Reqs: c.Reqs, Transport: "sync"}
